@@ -189,9 +189,25 @@ func (s *Solver) start() error {
 	s.pr.Reset()
 	s.inScope = false
 	s.sinceRst = 0
-	s.send("(set-option :global-declarations true)\n(set-option :timeout " + strconv.Itoa(s.TimeoutMs) + ")\n")
+	fast := s.TimeoutMs / 4
+	if fast < 1000 {
+		fast = 1000
+	}
+	s.send("(set-option :global-declarations true)\n(set-option :timeout " + strconv.Itoa(fast) + ")\n")
 	return nil
 }
+
+// Kill terminates the solver processes; a worker blocked in a query then fails and unwinds.
+func (s *Solver) Kill() {
+	if s.cmd != nil && s.cmd.Process != nil {
+		s.cmd.Process.Kill()
+	}
+	if s.one != nil && s.one.cmd.Process != nil {
+		s.one.cmd.Process.Kill()
+	}
+}
+
+func ResetEscalationBudget() { atomic.StoreInt64(&escFailures, 0) }
 
 func (s *Solver) Close() {
 	if s.cmd != nil {
@@ -285,7 +301,15 @@ type Value struct {
 // the values of those variables are returned.
 func (s *Solver) Check(extra []*sym.Term, want []*sym.Term) (Result, Model) {
 	t0 := time.Now()
-	defer func() { s.Stats.SolverNanos += int64(time.Since(t0)) }()
+	defer func() {
+		el := time.Since(t0)
+		s.Stats.SolverNanos += int64(el)
+		if d := os.Getenv("SYMX_SLOWDIR"); d != "" && el > 1500*time.Millisecond {
+			id := atomic.AddInt64(&solverSeq, 1)
+			os.MkdirAll(d, 0o755)
+			os.WriteFile(filepath.Join(d, fmt.Sprintf("slow-%d-%dms.smt2", id, el.Milliseconds())), []byte(s.Standalone(extra, want)), 0o644)
+		}
+	}()
 	s.Stats.Queries++
 	fp := s.scopeFP
 	for _, e := range extra {
@@ -355,6 +379,14 @@ func (s *Solver) Check(extra []*sym.Term, want []*sym.Term) (Result, Model) {
 		}
 	}
 	s.send("(pop 1)\n")
+	if res == Unknown {
+		// second chance in a fresh context (tactic-based solver), before the portfolio
+		s.Stats.OneShot++
+		r2, m2 := s.oneShotCheck(extra, want)
+		if r2 != Unknown {
+			res, model = r2, m2
+		}
+	}
 	if res == Unknown && s.Portfolio {
 		s.Stats.Escalated++
 		r2, m2 := s.escalate(extra, want)
@@ -606,9 +638,22 @@ func (s *Solver) Standalone(extra []*sym.Term, want []*sym.Term) string {
 	return sb.String()
 }
 
-var EscalateTimeoutS = 120
+var EscalateTimeoutS = 40
 
-func (s *Solver) escalate(extra []*sym.Term, want []*sym.Term) (Result, Model) {
+// escFailures counts escalations that stayed undecided (all workers); beyond the limit the
+// portfolio is skipped for the rest of the run (the affected paths are reported inconclusive).
+var escFailures int64
+var EscFailureLimit int64 = 24
+
+func (s *Solver) escalate(extra []*sym.Term, want []*sym.Term) (res0 Result, m0 Model) {
+	if atomic.LoadInt64(&escFailures) >= EscFailureLimit {
+		return Unknown, nil
+	}
+	defer func() {
+		if res0 == Unknown {
+			atomic.AddInt64(&escFailures, 1)
+		}
+	}()
 	script := s.Standalone(extra, want)
 	id := atomic.AddInt64(&solverSeq, 1)
 	os.MkdirAll(s.WorkDir, 0o755)
